@@ -43,6 +43,9 @@ func (k c18Case) String() string {
 	return fmt.Sprintf("settings=[%s] nodes=%v order=%v listReversed=%v", strings.Join(s, " "), k.Nodes, k.Order, k.ListRev)
 }
 
+// c18Bad: selectors that cannot be converted (In without values, an unknown operator, an illegal value).
+func c18Bad(sel string) bool { return strings.HasPrefix(sel, "bad") }
+
 func c18Selector(s string) metav1.LabelSelector {
 	switch s {
 	case "zone=a":
@@ -57,13 +60,17 @@ func c18Selector(s string) metav1.LabelSelector {
 		return metav1.LabelSelector{MatchExpressions: []metav1.LabelSelectorRequirement{{Key: "zone", Operator: metav1.LabelSelectorOpExists}}}
 	case "tier notin (a)":
 		return metav1.LabelSelector{MatchExpressions: []metav1.LabelSelectorRequirement{{Key: "tier", Operator: metav1.LabelSelectorOpNotIn, Values: []string{"a"}}}}
+	case "bad-op":
+		return metav1.LabelSelector{MatchExpressions: []metav1.LabelSelectorRequirement{{Key: "zone", Operator: "Gt", Values: []string{"1"}}}} // not an operator of label selectors
+	case "bad-value":
+		return metav1.LabelSelector{MatchLabels: map[string]string{"zone": "not a label value!"}}
 	case "bad":
 		return metav1.LabelSelector{MatchExpressions: []metav1.LabelSelectorRequirement{{Key: "zone", Operator: metav1.LabelSelectorOpIn}}} // In without values: unusable
 	}
 	return metav1.LabelSelector{} // everything
 }
 
-var c18Selectors = []string{"zone=a", "zone=a", "zone=b", "tier=a", "zone in (a,b)", "zone exists", "tier notin (a)", "all", "bad"}
+var c18Selectors = []string{"zone=a", "zone=a", "zone=b", "tier=a", "zone in (a,b)", "zone exists", "tier notin (a)", "all", "bad", "bad-op", "bad-value"}
 
 func c18Draw(rt *rapid.T) c18Case {
 	k := c18Case{}
@@ -144,7 +151,7 @@ func runC18(k c18Case) (vs []mon.V, err error) {
 		}
 	}
 	// ---- reference verdict
-	usable := func(s c18Setting) bool { return s.Selector != "bad" }
+	usable := func(s c18Setting) bool { return !c18Bad(s.Selector) }
 	hasRef := func(s c18Setting) bool { return s.Ref != "nil" && s.Ref != "" }
 	matches := func(s c18Setting, l map[string]string) bool {
 		sel, e := metav1.LabelSelectorAsSelector(func() *metav1.LabelSelector { x := c18Selector(s.Selector); return &x }())
@@ -279,7 +286,7 @@ func c18One(f fataler, rec *evid.Rec, k c18Case) {
 	var classes []string
 	times := map[string]bool{}
 	for _, s := range k.Settings {
-		if s.Selector == "bad" || s.Ref == "nil" || s.Ref == "" {
+		if c18Bad(s.Selector) || s.Ref == "nil" || s.Ref == "" {
 			nt = true
 			classes = append(classes, "malformed")
 		}
@@ -293,7 +300,7 @@ func c18One(f fataler, rec *evid.Rec, k c18Case) {
 	for i := range k.Settings {
 		for j := i + 1; j < len(k.Settings); j++ {
 			a, b := k.Settings[i], k.Settings[j]
-			if a.NS == b.NS && a.Selector != "bad" && b.Selector != "bad" {
+			if a.NS == b.NS && !c18Bad(a.Selector) && !c18Bad(b.Selector) {
 				for _, l := range k.Nodes {
 					sa, _ := metav1.LabelSelectorAsSelector(func() *metav1.LabelSelector { x := c18Selector(a.Selector); return &x }())
 					sb, _ := metav1.LabelSelectorAsSelector(func() *metav1.LabelSelector { x := c18Selector(b.Selector); return &x }())
